@@ -36,7 +36,8 @@ def configs(tier):
            {'name': 'on-axis-sphere', 'kind': 'onaxis', 'surf': 'sphere'},
            {'name': 'surface-then-refract', 'kind': 'surf_refract'},
            {'name': 'surface-then-reflect', 'kind': 'surf_reflect'},
-           {'name': 'frames', 'kind': 'frames'}, {'name': 'rotation-matrix', 'kind': 'rotmat'}]
+           {'name': 'frames', 'kind': 'frames'}, {'name': 'rotation-matrix', 'kind': 'rotmat'},
+           {'name': 'surface-constructors-carry-position-and-tilt', 'kind': 'ctor'}]
     # multi-surface prescriptions of tilted / decentred planes (the ray-plane intersection is exact after one Newton step): every mix of
     # tilted (T) and untilted (U) surfaces, reflecting (m), refracting (r) and non-bending (e)
     seqs = ['Tm,Ue', 'Ue,Tm', 'Tm,Um', 'Ur,Tm,Ue', 'Te,Ur', 'Tr,Ue'] if q else \
@@ -61,6 +62,9 @@ def params(cfg):
         for j in range(ns):
             ps += [('t%d' % j, {'gt': -0.2, 'lt': 0.2}), ('dy%d' % j, {}), ('z%d' % j, {'gt': 1 + 2 * j, 'lt': 2 + 2 * j})]
         return ps
+    if k == 'ctor':
+        return [('t', {'gt': -0.5, 'lt': 0.5}), ('px', {}), ('py', {}), ('pz', {}), ('c', {'gt': 0, 'lt': 0.3}), ('k', {'gt': -2, 'lt': 0.5}),
+                ('s', {'gt': 0, 'lt': 0.5}), ('x', {'gt': 0, 'lt': 1}), ('y', {'gt': 0, 'lt': 1})]
     if k in ('frames', 'rotmat'):
         return [('al', {}), ('be', {}), ('ga', {}), ('px', {}), ('py', {}), ('pz', {})]
     return []
@@ -237,6 +241,27 @@ def run(cfg, H):
                 nprev = n1
             else:
                 H.eq('surface %d does not bend the ray' % j, H.asarray(Sn_), H.asarray(Sp))
+    elif k == 'ctor':
+        sf = H.mod('prysm.x.raytracing.surfaces')
+        t, c, kk, sh = H.param('t'), H.param('c'), H.param('k'), H.param('s')
+        cs, sn = (1 - t * t) / (1 + t * t), 2 * t / (1 + t * t)
+        R = H.asarray([[1 + 0 * t, 0 * t, 0 * t], [0 * t, cs, -sn], [0 * t, sn, cs]])
+        P = H.asarray([H.param('px'), H.param('py'), H.param('pz')])
+        idx = lambda wvl: 1.5    # noqa
+        made = {'plane': sf.Surface.plane('refl', P, R=R), 'conic': sf.Surface.conic(c, kk, 'refl', P, R=R),
+                'sphere': sf.Surface.sphere(c, 'refr', P, idx, R=R), 'off-axis conic': sf.Surface.off_axis_conic(c, kk, 'refl', P, dy=sh, R=R)}
+        for nm, surf in made.items():
+            H.holds('%s: the surface carries a tilt' % nm, surf.R is not None)
+            if surf.R is not None:
+                H.eq('%s: the surface carries the requested tilt' % nm, H.asarray(surf.R), R)
+            H.eq('%s: the surface carries the requested position' % nm, H.asarray(surf.P), P)
+        x, y = H.param('x'), H.param('y')
+        if H.mode == 'symbolic':
+            H.assume(1 - c * c * (x * x + y * y) > 0, 'the point is on the sphere')
+        zs, ds = made['sphere'].sag_normal(H.asarray([x]), H.asarray([y]))
+        zc, dc = sf.Surface.conic(c, 0, 'refl', P, R=R).sag_normal(H.asarray([x]), H.asarray([y]))
+        H.eq('sphere == conic with k = 0 (sag)', zs, zc)
+        H.eq('sphere == conic with k = 0 (normal)', ds, dc)
     elif k in ('frames', 'rotmat'):
         co = H.mod('prysm.coordinates')
         al, be, ga = H.param('al'), H.param('be'), H.param('ga')
